@@ -40,7 +40,7 @@ def job_items(small_only=False):
     from vf.checks import c11
 
     memo = c11.memo_table_inputs().flatmap(lambda items: st.sampled_from(items)) if True else None
-    empty_if_switch = st.tuples(st.integers(0, 3), st.integers(1, 3), st.sampled_from(["hold", "end", "return"])).map(_empty_if_then_switch)
+    empty_if_switch = st.tuples(st.integers(0, 3), st.integers(1, 3), st.sampled_from(["hold", "end", "return"]), st.integers(0, 2), st.booleans()).map(_empty_if_then_switch)
     if small_only:
         return weighted((1, p_item), (3, s_item), (1, memo), (1, empty_if_switch))
     return weighted((2, p_item), (4, s_item), (1, deep_item()), (1, failing_item()), (1, memo), (1, empty_if_switch))
@@ -48,16 +48,24 @@ def job_items(small_only=False):
 
 def _empty_if_then_switch(t):
     """a routine whose last if has an empty body, followed by a switch with one case and a default that ends the routine"""
-    npre, ncase, term = t
+    npre, ncase, term, nest, only_break = t
     n = [0]
 
     def op():
         n[0] += 1
         return {"k": "op", "name": f"ms_{n[0]}", "args": [], "ctx": None}
 
+    def cond(kw):
+        return {"c": "neg", "not": False, "kw": kw}
+
     body = [op() for _ in range(npre)]
-    body.append({"k": "if", "not": False, "conds": [{"c": "neg", "not": False, "kw": "debug"}], "body": [], "elifs": [], "else": None})
-    cases = [{"default": False, "head": {"ch": "val", "v": {"t": "int", "v": j}}, "body": [op(), {"k": "ctl", "v": "break"}]} for j in range(ncase)]
+    empty_if = {"k": "if", "not": False, "conds": [cond("debug")], "body": [], "elifs": [], "else": None}
+    if nest == 1:  # the empty if is the else branch of another if
+        empty_if = {"k": "if", "not": False, "conds": [cond("edit")], "body": [op()], "elifs": [], "else": [empty_if]}
+    elif nest == 2:  # ... or its then branch
+        empty_if = {"k": "if", "not": False, "conds": [cond("edit")], "body": [empty_if], "elifs": [], "else": [op()]}
+    body.append(empty_if)
+    cases = [{"default": False, "head": {"ch": "val", "v": {"t": "int", "v": j}}, "body": ([] if only_break else [op()]) + [{"k": "ctl", "v": "break"}]} for j in range(ncase)]
     cases.append({"default": True, "head": None, "body": [op(), {"k": "ctl", "v": term}]})
     body.append({"k": "switch", "head": {"h": "var", "v": {"t": "const", "v": "$MS"}}, "cases": cases})
     body += [op(), {"k": "ctl", "v": "end"}]
